@@ -553,6 +553,64 @@ def renamed_members(ctx, only=None):
                          "%s: the class got attributes it never defined: %r" % (label, stray))
 
 
+def setattr_alias_cases(ctx, only=None):
+    """__setattr__ bound to a function that is called something else (an alias, a decorator that does not preserve the
+    name): attribute assignments are still the attribute-assignment operation - the invariants that ask for it are checked
+    around them, the call-time ones are not."""
+    import icontract
+
+    E = icontract.InvariantCheckEvent
+
+    def nowraps(fn):
+        def inner(self, k, v):
+            return fn(self, k, v)
+        return inner
+
+    for variant in ("plain def", "alias", "no-wraps decorator"):
+        for check_on in ("SETATTR", "CALL", "ALL"):
+            if only and only != [variant, check_on]:
+                continue
+            seen = []
+
+            def inv(self):
+                seen.append("inv")
+                return self.__dict__.get("x", 1) > 0
+
+            def _set(self, k, v):
+                object.__setattr__(self, k, v)
+
+            def __setattr__(self, k, v):
+                object.__setattr__(self, k, v)
+
+            ns = {"__init__": None}
+
+            def __init__(self):
+                self.__dict__["x"] = 1
+            ns = {"__init__": __init__, "__setattr__": {"plain def": __setattr__, "alias": _set, "no-wraps decorator": nowraps(_set)}[variant]}
+            if variant == "alias":
+                ns["_set"] = _set
+            K = icontract.invariant(inv, check_on=getattr(E, check_on))(type("K", (), ns))
+            label = "__setattr__ as %s, invariant checked on %s" % (variant, check_on)
+            checked = check_on in ("SETATTR", "ALL")
+            for value, want, want_inv in ((5, "ok", 2 if checked else 0), (-1, "violation" if checked else "ok", 2 if checked else 0)):
+                k = K()
+                del seen[:]
+                try:
+                    k.x = value
+                    got = "ok"
+                except icontract.ViolationError:
+                    got = "violation"
+                except BaseException as e:  # noqa
+                    got = "%s: %s" % (type(e).__name__, e)
+                ctx.case(["setattr-alias", variant, check_on, value], True, sample={"directed": label, "assigned": value, "outcome": got})
+                ctx.count("directed:setattr-alias-cases")
+                if got != want or len(seen) != want_inv:
+                    ctx.fail("setattr-alias|%s|%s" % (variant.split()[0], check_on), {"setattr_alias": [variant, check_on]},
+                             "%s, k.x = %d: expected %s with %d invariant evaluation(s), got %s with %d" % (
+                                 label, value, want, want_inv, got, len(seen)))
+                    break
+
+
 def undecorated_middle_cases(ctx, only=None):
     """A class with an invariant, an UNDECORATED plain sub-class that adds public members, and a leaf below it that is set
     up for invariants again (decorated with a further invariant, or mixing in icontract.DBC): the members the leaf
@@ -629,6 +687,7 @@ def directed(ctx, only=None):
         builtin_bases(ctx)
         renamed_members(ctx)
         undecorated_middle_cases(ctx)
+        setattr_alias_cases(ctx)
     if only is None:
         n = 0
         for case in constructor_matrix():
@@ -643,6 +702,11 @@ def directed(ctx, only=None):
 
 
 def replay(ctx, case):
+    if case.get("setattr_alias"):
+        before = ctx.evaluations
+        setattr_alias_cases(ctx, only=case["setattr_alias"])
+        ctx.evaluations = before + 1
+        return
     if case.get("undecorated_middle"):
         before = ctx.evaluations
         undecorated_middle_cases(ctx, only=case["undecorated_middle"])
